@@ -115,4 +115,10 @@ META = {
         "level_text": "Heartbeat behaviour is observed through the subscribers' connections and sampled data over generated start/stop/remove histories and judged by an invariant with calibrated tolerances; the concurrent clause (no panic, no unstoppable second stream) is decided by enumerating the merge orders of Start and Stop around their check/close and stop/create windows and watching four periods after a final Stop.",
         "level_note": "Trusted: wall-clock tolerances (mean gap, refresh count) with a self-check that discards cases where the harness was descheduled; sched engine. Timing outside the tolerances' resolution (e.g. a doubled period at 100 ms) is not decided.",
     },
+    "C17": {
+        "technique": "randomised concurrent workload generation (rapid) executed under the Go race detector, with classification of race reports by unsynchronised state and a lock-wait watchdog",
+        "design_ref": "DESIGN.md §4 C17, Appendix A.5",
+        "level_text": "Generated multi-goroutine workloads over the whole public API and inbound message handling run free in a -race build; each race report is classified, open states (Feature.operations, Feature.description, Device.address) are reported as KNOWN-FINDING, any other pair is a violation. Deadlocks are detected by a 60 s watchdog with goroutine-dump analysis. Exploration of schedules the Go scheduler happens to produce.",
+        "level_note": "Trusted: the Go race detector (no false positives), the frame-pair classifier. Residual risk: a rarer race class may first appear in a later run; schedule-dependent findings cannot be replayed, the replay artefact is the race report itself.",
+    },
 }
